@@ -183,7 +183,15 @@ impl BinRead for CimMode {
         let submode = u8::read_options(reader, endian, ())?;
         let seltype = u8::read_options(reader, endian, ())?;
 
+        // the u8 -> submode conversions treat unknown values as unreachable, but these bytes come
+        // straight from the network
+        let bad_submode = || binrw::Error::BadMagic {
+            pos,
+            found: Box::new(submode),
+        };
         let res = match discrim {
+            0 if submode > 4 => return Err(bad_submode()),
+            3 if submode > 8 => return Err(bad_submode()),
             0 => Self::Normal(submode.into()),
             1 => Self::Options,
             2 => Self::HostOptions,
